@@ -29,6 +29,12 @@ NEIGHBOURS = [{"from": "C08", "limit": 400, "why": "captures receive the call's 
               {"from": "C09", "limit": 400, "why": "error factories receive the call's argument values"}]
 
 
+HOSTILE = ["error", "contract", "func", "condition", "instance", "args", "kwargs", "resolved_kwargs", "description", "a_repr",
+           "enabled", "name", "capture", "violation_error", "mapping", "location", "param_names", "kwdefaults", "snapshot",
+           "wrapper", "checker", "value", "key", "cls_", "in_progress", "exception", "msg", "e", "err", "error_kwargs", "condition_kwargs"]
+HOSTILE_PAIRS = [(HOSTILE[i], HOSTILE[(i + 7) % len(HOSTILE)]) for i in range(len(HOSTILE))]
+
+
 def signatures(n):
     """All well-formed signatures with exactly n parameters (names by position)."""
     for kinds in itertools.product(KINDS, repeat=n):
@@ -68,7 +74,7 @@ def call_shapes(sig, max_pos=4):
                 yield args, [[k, 40 + i] for i, k in enumerate(ks)]
 
 
-def make_case(sig, args, kwargs, rng, kind="function", async_=False):
+def make_case(sig, args, kwargs, rng, kind="function", async_=False, hostile=None):
     nonvar = [p["name"] for p in sig if p["kind"] not in ("varPos", "varKw")]
     lv = {"pre": [], "snaps": [], "posts": []}
     case = genck.base_case("function", async_, [lv])
@@ -86,18 +92,33 @@ def make_case(sig, args, kwargs, rng, kind="function", async_=False):
         sub = sub + ["nope"]
     if rng.random() < 0.5 and kwargs:
         sub = sub + [rng.choice(kwargs)[0]]
+    if hostile is not None:
+        sub = list(hostile)
     sub = list(dict.fromkeys(sub))
     lv["pre"].append(genck.contract(2, sub, err={"cls": {"subBase": True, "truthy": True}}))
     if nonvar:
-        lv["snaps"].append(genck.snapshot(1, "s1", rng.sample(nonvar, min(len(nonvar), rng.randint(1, 2)))))
+        s1args = rng.sample(nonvar, min(len(nonvar), rng.randint(1, 2)))
+        # (often named like the parameter it captures - the default naming of `snapshot(lambda lst: ...)`; captures made
+        # later must still receive the ARGUMENT of that name, not the captured value)
+        s1name = s1args[0] if (hostile is None and s1args[0] != "self" and rng.random() < 0.5) else "s1"
+        lv["snaps"].append(genck.snapshot(1, s1name, s1args))
     if len(nonvar) >= 2:
         # (even id: the capture's parameters after the first have defaults of their own - the call's values must win)
-        lv["snaps"].append(genck.snapshot(2, "s2", rng.sample(nonvar, min(len(nonvar), rng.randint(2, 3)))))
+        s2args = rng.sample(nonvar, min(len(nonvar), rng.randint(2, 3)))
+        if lv["snaps"][0]["name"] != "s1" and lv["snaps"][0]["name"] not in s2args:
+            s2args[0] = lv["snaps"][0]["name"]
+        lv["snaps"].append(genck.snapshot(2, "s2", list(dict.fromkeys(s2args))))
     fsub = rng.sample(nonvar, min(len(nonvar), rng.randint(0, 3))) + rng.sample(["_ARGS", "_KWARGS", "result", "OLD"], 2)
+    if hostile is not None:
+        fsub = list(hostile) + ["result"]
     if not lv["snaps"]:
         fsub = [x for x in fsub if x != "OLD"]
     lv["posts"].append(genck.contract(3, rng.sample(nonvar, min(len(nonvar), 2)) + ["result"], err={"fac": {"args": fsub}}))
     case["cond"] = [[1, genck.T(101)], [2, genck.T(102)], [3, genck.F(103)]]
+    if rng.random() < 0.2:
+        # a falsy guard in front: the later condition of the group (which may ask for a name this call does not
+        # provide) must not even be prepared
+        case["cond"][0] = [1, genck.F(101)]
     return genck.fill_oracle_defaults(case)
 
 
@@ -108,6 +129,15 @@ def cases(tier, rng):
     thorough = tier == "thorough"
     for c in directed.shared_decorator_cases():
         yield "directed-shared-contract", c
+    # parameters named like the library's own helper parameters / local variables
+    for names in HOSTILE_PAIRS:
+        for kinds in (("posOrKw", "posOrKw"), ("posOnly", "kwOnly"), ("posOrKw", "kwOnly")):
+            sig = [{"name": names[0], "kind": kinds[0], "default": None}, {"name": names[1], "kind": kinds[1], "default": 21}]
+            for args, kwargs in call_shapes(sig):
+                for a_ in (False, True):
+                    c = make_case(sig, args, kwargs, rng, async_=a_, hostile=names)
+                    if implck.py_bind(c) is not None:
+                        yield "hostile-parameter-names", c
     import inspect as _i  # noqa
     for n in range(0, (4 if thorough else 3) + 1):
         for sig in signatures(n):
@@ -210,12 +240,23 @@ def spec(case, mo, io):
         | {"_ARGS", "_KWARGS"} | set(n for n, k in kinds.items() if k in ("varPos", "varKw"))
     c2 = by[2][1]
     missing = [n for n in c2["mandatory"] if n not in provided]
-    if missing:
+    guard_false = dict((c, a) for c, a in case["cond"])[1]["val"]["t"] != "truthy"
+    if missing and guard_false:
+        # evaluation of the group stops at the falsy guard: the condition that cannot be supplied is never prepared
+        if any(ev[0] == "cond" and ev[1] == 2 for ev in io["trace"]):
+            fails.append("condition 2 evaluated although the group's first condition was falsy")
+        if not (io["out"][0] == "raise" and io["out"][1][0] != "TypeError"):
+            fails.append("the first condition of the group is falsy and a later one asks for %s which the call does not provide: "
+                         "expected the violation of the first, got %s" % (missing, io["out"]))
+    elif missing:
         if any(ev[0] == "cond" and ev[1] == 2 for ev in io["trace"]):
             fails.append("condition 2 evaluated although %s is not provided" % missing)
         r = io["out"]
         if not (r[0] == "raise" and r[1][0] == "TypeError" and r[1][1] == "missingCondArgs" and set(missing) <= set(r[1][3] or [])):
             fails.append("condition asks for %s which the call does not provide: expected TypeError naming it, got %s" % (missing, r))
+    if not missing and io["out"][0] == "raise" and (io["out"][1][0] == "TypeError" or list(io["out"][1][:2]) == ["other", "TypeError"]):
+        fails.append("CPython accepts the call and every name the contracts ask for is provided, yet the call raised %s "
+                     "(the arguments did not reach a condition / capture / error factory)" % (io["out"][1],))
     return fails
 
 
